@@ -70,6 +70,8 @@ def _strict_params(repo: Repo) -> Dict[str, Set[int]]:
 
 
 def run(repo: Repo, rep: Report, tier: str) -> None:
+    from sa.report import guarded as _guarded
+
     from rules._memo import persistent_memo_rule
 
     persistent_memo_rule(repo, rep, "R19.7", ("core.loader", "core.parsing"),
@@ -79,22 +81,22 @@ def run(repo: Repo, rep: Report, tier: str) -> None:
     # raw-name index instead of parsing it again (which copy a property bound to depended on the order of components.schemas)  [= R2.15]
     from rules._registry import rule_raw_name_index
 
-    rule_raw_name_index(repo, rep, "R19.8")
-    rule_invented_names_are_order_free(repo, rep, "R19.9")
-    rule_shared_variant_values_survive(repo, rep, "R19.12")
-    rule_sibling_names_are_distinct(repo, rep, "R19.10")
+    _guarded(rep, rule_raw_name_index, repo, rep, "R19.8")
+    _guarded(rep, rule_invented_names_are_order_free, repo, rep, "R19.9")
+    _guarded(rep, rule_shared_variant_values_survive, repo, rep, "R19.12")
+    _guarded(rep, rule_sibling_names_are_distinct, repo, rep, "R19.10")
     # R19.11: which of a made-up and an equally named declared schema survives must not depend on the declaration order: they never share a name  [= R2.17]
     from rules.c02 import rule_invented_names_avoid_declared
 
-    rule_invented_names_avoid_declared(repo, rep, "R19.11")
+    _guarded(rep, rule_invented_names_avoid_declared, repo, rep, "R19.11")
     from rules.c02 import rule_all_of_merge_is_completed
 
-    rule_all_of_merge_is_completed(repo, rep, "R19.13")
+    _guarded(rep, rule_all_of_merge_is_completed, repo, rep, "R19.13")
     # R19.14: a cycle placeholder (always `type="object"`) is bound to its target by the by-name lookup whatever kind the target has; which schema of a
     # cycle becomes the placeholder depends on declaration / property order                                                        [= R2.11]
     from rules.c02 import rule_name_fallback_respects_kind
 
-    rule_name_fallback_respects_kind(repo, rep, "R19.14")
+    _guarded(rep, rule_name_fallback_respects_kind, repo, rep, "R19.14")
     strict = _strict_params(repo)
     rep.count("R19.1:type_strict_parser_parameters", {k: sorted(v) for k, v in strict.items()})
     # ---------------------------------------------------------------- R19.1
@@ -165,7 +167,7 @@ def run(repo: Repo, rep: Report, tier: str) -> None:
     rep.count("R19.1:key_typing_sites", n_sites)
     rep.require(n_sites >= 2, f"R19.1: only {n_sites} key-typing sites found (floor 2)")
 
-    rule_no_state_between_entries(repo, rep, "R19.6")
+    _guarded(rep, rule_no_state_between_entries, repo, rep, "R19.6")
     # ---------------------------------------------------------------- R19.2 sibling call sites of parse_parameter
     po = repo.func("core.loader.operations.parser:parse_operations")
     pcs = [c for c in calls_in(po.node) if dotted(c.func) == "parse_parameter"]
